@@ -283,8 +283,8 @@ func variants(b behav.Behaviour, mode string, seed int64, idx int) []Profile {
 		out = append(out, Profile{Str: "ascii", Int: "id", Seed: seed})
 		if hasStr {
 			for i, sp := range StrProfileNames[1:] {
-				if !behav.Thorough() && (h+i)%6 >= 3 {
-					continue // quick tier: three of the six other profiles per behaviour
+				if !behav.Thorough() && (h+i)%(len(StrProfileNames)-1) >= 3 {
+					continue // quick tier: three of the other profiles per behaviour
 				}
 				out = append(out, Profile{Str: sp, Int: "id", Seed: seed})
 			}
@@ -328,8 +328,8 @@ func variants(b behav.Behaviour, mode string, seed int64, idx int) []Profile {
 	}
 	if hasStr {
 		for i, sp := range StrProfileNames[1:] {
-			if few && (h+i)%6 >= 3 {
-				continue // three of the six other profiles per behaviour
+			if few && (h+i)%(len(StrProfileNames)-1) >= 3 {
+				continue // three of the other profiles per behaviour
 			}
 			out = append(out, Profile{Str: sp, Int: "id", Style: (h + i) % NStyles, Seed: seed})
 			if !few {
